@@ -55,7 +55,7 @@ LEVEL = "proof"
 THEOREMS = [
     "C15_wf_invariant", "C15_seq_in_log_order", "C15_last_seq_mono", "C15_no_abort", "C15_repoint_nearest",
     "C15_nearest_is_ancestor", "C15_repoint_cycle", "C15_current_kept", "C15_delete_exact", "C15_entries_provenance",
-    "C15_repoint_all", "C15_txn_files", "C15_delete_complete", "C15_txn_delete_complete", "C15_mlog_ok", "C15_mlog_names_superseded", "C15_mutators_regenerated", "C09_by_timestamp", "C09_delete_current", "C09_by_id",
+    "C15_repoint_all", "C15_txn_files", "C15_delete_complete", "C15_txn_delete_complete", "C15_mlog_ok", "C15_mlog_names_superseded", "C15_mutators_regenerated", "C15_file_ops_regenerated", "C09_by_timestamp", "C09_delete_current", "C09_by_id",
 ]
 REQ = ["DS.Model.MetaBase", "DS.Gen.GenRepoint", "DS.Model.Meta"]
 
@@ -74,7 +74,7 @@ MANIFEST_ENTRY = {
                   "the same model. Model tied to the code by exhaustive forests (every parent map on <= 5 snapshots x every kept "
                   "subset) and random histories on the real library, compared after every step through an independent reader; "
                   "the property text is also judged directly on the implementation's metadata (oracle)",
-    "level_note": "trusted: Coq kernel; translator/gen_repoint.py (frame pinned by golden AST) and translator/gen_meta.py (expire mutator, _apply_retention, _most_recent_snapshot_id, get_snapshot_by_timestamp, _append_metadata_log translated statement by statement and PROVED equal to the hand-written model: C15_mutators_regenerated); harness. Hypothesis of the "
+    "level_note": "trusted: Coq kernel; translator/gen_repoint.py (frame pinned by golden AST) translator/gen_fileops.py (operation partitioning and Transaction._commit_file_ops: C15_file_ops_regenerated) and translator/gen_meta.py (expire mutator, delete_snapshot, _apply_retention, _most_recent_snapshot_id, get_snapshot_by_timestamp, _append_metadata_log translated statement by statement and PROVED equal to the hand-written model: C15_mutators_regenerated); harness. Hypothesis of the "
                   "history theorems: fresh_ops (snapshot ids from uuid4 are positive and never repeat; metadata file names never "
                   "repeat). Single committer (concurrency is C01). Physical existence of the files named by the metadata log is "
                   "checked on disk by the oracle after every step (nothing in the library deletes metadata/v*.metadata.json), "
@@ -1607,7 +1607,7 @@ def run(ctx) -> None:
         "single committer: histories are sequential (interleavings are property C01)",
         "metadata files named by the metadata log exist because nothing deletes metadata/v*.metadata.json (checked on disk by the oracle after every step, including after garbage_collect)",
     ]
-    ctx.proofs(THEOREMS, gen_files=["GenRepoint.v", "GenMeta.v"])
+    ctx.proofs(THEOREMS, gen_files=["GenRepoint.v", "GenMeta.v", "GenFileOps.v"])
     ctx.allow_axioms([])
     # implementation-only oracles + correspondence share the history runs
     import time
